@@ -110,6 +110,9 @@ MaxCandidates(cls, n) ==
 (*       by training / grad-enabled sampling only ("skipflag"), or by a    *)
 (*       change of alpha._version only ("skipver"; an assignment to        *)
 (*       alpha.data does not change it).                                   *)
+(*       "trainonly": a third DEFECTIVE sanity variant: the forward pass   *)
+(*       re-samples only while alpha is trainable ("avoid useless sampling *)
+(*       while the architectural parameters are frozen").                  *)
 (*   sum TRUE : SuperNetCombiner.summary() re-samples before reporting     *)
 (*       (the pinned code, finding KF_SNSummaryResamples; repaired since)  *)
 (*   exp TRUE : export() of a whole model leaves the eval-mode sample of   *)
@@ -164,6 +167,12 @@ SamplerAfter(optimpl, opt, v, gum, dis) ==
 (*            another inference pass" apart from the same calls after a    *)
 (*            training pass, so that the covering walk executes both.      *)
 (*  skip    : (defective variants only) the inference cache is valid       *)
+(*  sel     : TRAINABILITY of the coefficients (alpha.requires_grad):      *)
+(*            SuperNetCombiner.train_selection, DNAS.train_net_only() /    *)
+(*            train_nas_only() / train_net_and_nas().  Freezing alpha      *)
+(*            (warm-up, fine-tuning) must not change what a forward pass   *)
+(*            samples: no step below reads it, except the optimizer step   *)
+(*            (which only moves trainable tensors) - and "trainonly".      *)
 (***************************************************************************)
 Chan(s) == DOMAIN s.rank
 
@@ -196,6 +205,15 @@ DoOption(kind, im, optimpl, s, opt, v) ==
          IN  Canon(optimpl, [s2 EXCEPT !.sampler = SamplerAfter(optimpl, opt, v, s.gum, s.dis)])
 
 DoMode(s, training) == [s EXCEPT !.training = training, !.fresh = FALSE]
+
+\* freeze / unfreeze the coefficients.  how = the call that does it:
+\*   "freeze_attr" / "unfreeze_attr" : combiner.train_selection = v, SuperNet.train_selection = v,
+\*                                     alpha.requires_grad = v on a bare quantiser
+\*   "net_only" / "nas_only" / "net_and_nas" : DNAS.train_net_only() / train_nas_only() / train_net_and_nas()
+\* theta_alpha, the options and the mode are not touched.
+SelHowsAll == {"freeze_attr", "unfreeze_attr", "net_only", "nas_only", "net_and_nas"}
+SelAfter(how) == how \notin {"freeze_attr", "net_only"}
+DoSetSel(s, how) == [s EXCEPT !.sel = SelAfter(how)]
 
 (***************************************************************************)
 (* Writes to the coefficients.  wk = how alpha is written:                 *)
@@ -234,6 +252,7 @@ DoLoad(kind, im, s, rk, cls, t) ==
 DoForward(kind, im, s, g) ==
     LET inference == ~s.training /\ ~g IN
     IF s.sampler = "none" THEN DoSample(kind, im, s)                       \* nothing is sampled
+    ELSE IF im.smp = "trainonly" /\ ~s.sel THEN [s EXCEPT !.fresh = TRUE]  \* defective: frozen alpha is not re-sampled
     ELSE IF im.smp \in Skips /\ s.skip /\ inference
     THEN [s EXCEPT !.fresh = TRUE]                                          \* defective: early return
     ELSE [DoSample(kind, im, s) EXCEPT !.lastinf = inference,
@@ -264,14 +283,14 @@ DoExport(kind, im, ctor, s) ==
 (*                (MPS: in eval mode under no_grad), so theta is a stale   *)
 (*                sample.                                                  *)
 (***************************************************************************)
-InitState(kind, im, optimpl, ctor, rk0, hard, gum, dis, t) ==
+InitState(kind, im, optimpl, ctor, rk0, hard, gum, dis, t, sel) ==
     LET g  == gum
         d  == IF kind = "sn" THEN FALSE ELSE dis       \* a combiner has no disable option
         s0 == Canon(optimpl,
                     [rank |-> rk0, hard |-> hard, gum |-> g, dis |-> d, sampler |-> FromFlags(g, d),
                      training |-> TRUE, temp |-> t,
                      theta |-> [c \in DOMAIN rk0 |-> Unsampled], fresh |-> FALSE, sampled |-> FALSE,
-                     lastinf |-> FALSE, skip |-> FALSE])
+                     lastinf |-> FALSE, skip |-> FALSE, sel |-> sel])
     IN  CASE ctor = "model" -> [s0 EXCEPT !.theta = [c \in DOMAIN rk0 |-> Stale], !.sampled = TRUE,
                                           !.lastinf = (kind = "mps")]
           [] kind = "sn"    -> s0
@@ -326,4 +345,10 @@ ReportOK(kind, im, s, c, allowKF) ==
     \/ ReportSet(kind, im, s, c) = {ArgMax(s.rank[c])}
     \/ allowKF /\ KF_SNSummaryResamples(kind, s.training, s.sampler)
 ExportOK(s, c) == ExportChoice(s, c) = ArgMax(s.rank[c])
+\* after a forward pass theta is what the sampler in force gives for the current coefficients, options and mode -
+\* whatever the trainability of alpha, the grad mode and the history (im0 = the variant without its defects)
+SampleOK(kind, im, s, c) ==
+    LET im0 == [im EXCEPT !.smp = IF im.smp = "ref" THEN "ref" ELSE "asis"] IN
+    (s.fresh /\ s.sampler # "none") =>
+        s.theta[c] = Sample(kind, im0, s.sampler, s.hard, s.training, s.rank[c], s.theta[c])
 =============================================================================
